@@ -22,6 +22,7 @@ use std::hash::Hash;
 use crate::codec::SketchBytes;
 use crate::codec::SketchSlice;
 use crate::codec::assert::ensure_preamble_longs_in;
+use crate::codec::assert::ensure_remaining;
 use crate::codec::assert::ensure_serial_version_is;
 use crate::codec::assert::insufficient_data;
 use crate::codec::family::Family;
@@ -38,6 +39,8 @@ type SerializeItems<T> = fn(&mut SketchBytes, &[T]);
 type DeserializeItems<T> = fn(SketchSlice<'_>, usize) -> Result<Vec<T>, Error>;
 
 const LG_MIN_MAP_SIZE: u8 = 3;
+/// Largest map size a deserialized image may declare (2^31 cells, as in Java).
+const MAX_LG_MAP_SIZE: u8 = 31;
 const SAMPLE_SIZE: usize = 1024;
 const EPSILON_FACTOR: f64 = 3.5;
 const LOAD_FACTOR_NUMERATOR: usize = 3;
@@ -484,6 +487,11 @@ impl<T: Eq + Hash> FrequentItemsSketch<T> {
         if lg_cur > lg_max {
             return Err(Error::deserial("lg_cur_map_size exceeds lg_max_map_size"));
         }
+        if lg_max > MAX_LG_MAP_SIZE {
+            return Err(Error::deserial(format!(
+                "lg_max_map_size must be at most {MAX_LG_MAP_SIZE}, got {lg_max}"
+            )));
+        }
 
         let is_empty = (flags & EMPTY_FLAG_MASK) != 0;
         if is_empty {
@@ -504,6 +512,16 @@ impl<T: Eq + Hash> FrequentItemsSketch<T> {
             .map_err(insufficient_data("stream_weight"))?;
         let offset_val = cursor.read_u64_le().map_err(insufficient_data("offset"))?;
 
+        // the counts (and at least one byte per item) must be present before space is reserved,
+        // and the items must fit the map they are inserted into
+        ensure_remaining(&cursor, active_items, 9, "weights and items")?;
+        let cur_capacity = (1u64 << lg_cur.max(LG_MIN_MAP_SIZE)) * LOAD_FACTOR_NUMERATOR as u64
+            / LOAD_FACTOR_DENOMINATOR as u64;
+        if active_items as u64 > cur_capacity {
+            return Err(Error::deserial(format!(
+                "{active_items} active items exceed the capacity {cur_capacity} of the current map"
+            )));
+        }
         let mut values = Vec::with_capacity(active_items);
         for i in 0..active_items {
             values.push(cursor.read_u64_le().map_err(|_| {
